@@ -233,6 +233,39 @@ fn decode_real(bytes: &[u8], cuts: &[usize]) -> Result<Decoded, String> {
         start = end;
     }
     let before_flush = out.len();
+    if !cuts.is_empty() {
+        // the same boundaries inside ONE reader that hands out its content in pieces (a small BufReader, Chain, a
+        // wrapped VecDeque): `decode` called until the reader is exhausted must give the same events
+        let mut parts = vec![];
+        let mut at = 0;
+        for end in cuts.iter().copied().chain(std::iter::once(bytes.len())) {
+            parts.push(end - at);
+            at = end;
+        }
+        let mut dec2 = TTYEventDecoder::new();
+        let mut reader = super::decoder_common::SlicedReader::new(bytes, &parts);
+        let mut out2: Vec<TerminalEvent> = Vec::new();
+        let mut budget = 2 * bytes.len() + 64;
+        loop {
+            budget -= 1;
+            if budget == 0 {
+                return Err("decode on one reader handing out pieces does not terminate".into());
+            }
+            match dec2.decode(&mut reader).map_err(|e| format!("decode error {e:?}"))? {
+                Some(e) => out2.push(e),
+                None => {
+                    if reader.exhausted() {
+                        break;
+                    }
+                }
+            }
+        }
+        let a: Vec<Ev> = out.iter().map(observe).collect();
+        let b: Vec<Ev> = out2.iter().map(observe).collect();
+        if a != b {
+            return Err(format!("one read per piece gives {} but one reader handing out the pieces {:?} gives {}", show(&a), parts, show(&b)));
+        }
+    }
     dec.decode_into(Cursor::new(&b"\x1b"[..]), &mut out).map_err(|e| format!("decode error {e:?}"))?;
     let snap = dec.verif_snapshot();
     Ok(Decoded {
